@@ -193,7 +193,19 @@ static void print_program (Out *o, const ProgSpec *ps, const int *inline_const)
     for (j = 0; j < 3 && in->op->ssz[j]; j++) {
       k = in->s[j];
       if (!first) comma (o);
-      if (ps->vars[k].kind == VK_CONST && inline_const[k]) { const_literal (o, ps->vars[k].cval, in->op->ssz[j], 1); o->r->classes |= 1u << 3; }
+      if (ps->vars[k].kind == VK_CONST && inline_const[k]) {
+        /* one constant keeps ONE spelling within a program: 0x80 and -128 are the same byte, but as two literals they take two of
+           the eight constant slots, and a file that is full would be rejected for a reason that has nothing to do with its meaning */
+        static char memo[PS_MAXVARS][80];
+        static const ProgSpec *memo_ps;
+        if (memo_ps != ps) { memset (memo, 0, sizeof memo); memo_ps = ps; }
+        if (!memo[k][0]) {
+          size_t before = o->n;
+          const_literal (o, ps->vars[k].cval, in->op->ssz[j], 1);
+          snprintf (memo[k], sizeof memo[k], "%s", o->s + before);
+        } else oput (o, "%s", memo[k]);
+        o->r->classes |= 1u << 3;
+      }
       else oput (o, "%s", ps->vars[k].name);
       first = 0;
     }
